@@ -113,7 +113,28 @@ def schedule_cases(rng, tier):
             bad = rng.choice([b'\\s:x,c:123\\', b'\\s:y*ZZ\\', b'\\s:z*2A*2A\\', b'\\g:1-2-%d\\' % gids[0],
                               b'\\g:1-2-%d*GG\\' % gids[0], b'\\*\\'])
             seqs.append([(bad + make_sentence(rng, None, bodies), None)])
-        cases.append(('random', gen.random_interleaving(rng, seqs), tots))
+        case = gen.random_interleaving(rng, seqs)
+        label = 'random'
+        if rng.random() < 0.4:
+            # an ABORTED predecessor: a group with the same id began earlier (its first sentence, perhaps some others)
+            # and its tail was lost for good; the id is then used again by a complete group, as feeds do (ids wrap
+            # around).  The predecessor never completes and is never delivered; the successor is delivered like any
+            # group.  The predecessor's key differs from the successor's only in this bookkeeping, not on the wire.
+            gid = rng.choice(gids)
+            first_at = min(i for i, (_, g) in enumerate(case) if g == gid)
+            t_old = rng.choice([tots[gid], tots[gid] + 1, rng.randint(2, 6)])
+            if t_old >= 2:
+                key_old = gid + 10 ** 30
+                tots[key_old] = t_old
+                old = [make_sentence(rng, b'g:%d-%d-%d' % (i + 1, t_old, gid), bodies) for i in range(t_old)]
+                keep = [old[0]] + [x for x in old[1:-1] if rng.random() < 0.6]
+                if rng.random() < 0.5 and t_old > 2:
+                    keep = [old[0]] + rng.sample(old[1:], rng.randint(0, t_old - 2))
+                pos = sorted(rng.randint(0, first_at) for _ in keep)
+                for off, (p_, x) in enumerate(zip(pos, keep)):
+                    case.insert(p_ + off, (x, key_old))
+                label = 'random+aborted-predecessor'
+        cases.append((label, case, tots))
     # very many groups open at the same time (a feed that multiplexes thousands of sources): the first sentences of
     # all groups, then the others round-robin
     for ng in ((1500,) if tier == 'quick' else (1023, 1024, 1025, 1500, 3000)):
